@@ -268,9 +268,11 @@ theorem invL_step {k : Nat} {s s' : St V} {l : Label V} (ha : InvA k s) (hc : In
   | cCall live => obtain ⟨_, rfl⟩ := step_cCall h; exact ⟨hi.w5, hi.r6, hi.l⟩
   | cEnd => obtain ⟨_, _, _, rfl⟩ := step_cEnd h; exact ⟨hi.w5, hi.r6, hi.l⟩
   | cCtx => obtain ⟨_, rfl⟩ := step_cCtx h; exact ⟨hi.w5, hi.r6, hi.l⟩
+  | cExpire => obtain ⟨_, rfl⟩ := step_cExpire h; exact ⟨hi.w5, hi.r6, hi.l⟩
   | cClose => obtain ⟨_, rfl⟩ := step_cClose h; exact ⟨hi.w5, hi.r6, hi.l⟩
   | cCloseStep =>
     rcases step_cCloseStep h with ⟨_, _, rfl⟩ | ⟨_, _, rfl⟩ | ⟨_, _, _, rfl⟩ <;> exact ⟨hi.w5, hi.r6, hi.l⟩
+  | ctxEnds => obtain ⟨_, _, rfl⟩ := step_ctxEnds h; exact ⟨hi.w5, hi.r6, hi.l⟩
 
 theorem reach_invL {k : Nat} {s : St V} (h : Reach (init V k) s) : InvL k s := by
   induction h with
@@ -375,10 +377,10 @@ theorem allEnded_facts {k : Nat} {s : St V} (ha : InvA k s) (hc : InvC k s) (hl 
       · rw [hall a haa] at hw; cases hw
   exact ⟨hco, (hc.w1 hco).2.2, hnl⟩
 
-theorem end_progress {k : Nat} {s : St V} (ha : InvA k s) (hc : InvC k s) (hl : InvL k s)
-    (hall : AllEnded s) (hcp : s.cpc = .inNext true) :
+theorem end_progress {k : Nat} {s : St V} (ho : ctxOrigin = .plainCancel) (ha : InvA k s) (hc : InvC k s)
+    (hl : InvL k s) (hall : AllEnded s) (hcp : s.cpc = .inNext true) :
     (∃ l, l ∈ internalLabels s ∧ ∃ s', step s l = some s') ∧
-    (∀ l s', step s l = some s' → AllEnded s' ∧
+    (∀ l s', l ≠ .cExpire → step s l = some s' → AllEnded s' ∧
       ((s'.cpc = .inNext true ∧ s'.results = s.results ∧ nu2 s' < nu2 s) ∨ s'.results = s.results ++ [.endd])) := by
   obtain ⟨hco, hse, hnl⟩ := allEnded_facts ha hc hl hall
   have hlen : s.gs.length = s.k := by rw [ha.len, ha.hk]
@@ -407,7 +409,7 @@ theorem end_progress {k : Nat} {s : St V} (ha : InvA k s) (hc : InvC k s) (hl : 
       | gotErr e => simp [hp, inLoop] at hn
       | won e r => simp [hp, inLoop] at hn
       | send v => simp [hp, inLoop] at hn
-  · intro l s' hs
+  · intro l s' hne hs
     have gor : ∀ {i : Nat} {g g' : G V}, s.gs[i]? = some g → Trans g g' → s'.gs = s.gs.set i g' → s'.cpc = s.cpc →
         s'.results = s.results → (∀ v, g.pc = .send v → g' ≠ again g) →
         AllEnded s' ∧ ((s'.cpc = .inNext true ∧ s'.results = s.results ∧ nu2 s' < nu2 s) ∨ s'.results = s.results ++ [.endd]) := by
@@ -432,6 +434,7 @@ theorem end_progress {k : Nat} {s : St V} (ha : InvA k s) (hc : InvC k s) (hl : 
     | inEnd i => obtain ⟨g, hg, hp, rfl⟩ := step_inEnd hs; exact (notLoop hg (by simp [hp, inLoop])).elim
     | inErr i e => obtain ⟨g, hg, hp, rfl⟩ := step_inErr hs; exact (notLoop hg (by simp [hp, inLoop])).elim
     | inCtx i => obtain ⟨g, hg, hp, _, rfl⟩ := step_inCtx hs; exact (notLoop hg (by simp [hp, inLoop])).elim
+    | ctxEnds => exact (no_ctxEnds (ha.org.trans ho) hs).elim
     | cas i => obtain ⟨g, e, hg, hp, _⟩ := step_cas hs; exact (notLoop hg (by simp [hp, inLoop])).elim
     | win i =>
       obtain ⟨g, e, hg, hcc⟩ := step_win hs
@@ -453,27 +456,34 @@ theorem end_progress {k : Nat} {s : St V} (ha : InvA k s) (hc : InvC k s) (hl : 
       obtain ⟨_, _, _, rfl⟩ := step_cEnd hs
       exact ⟨hall, .inr (by simp [hse])⟩
     | cCtx => obtain ⟨hp, _⟩ := step_cCtx hs; rw [hcp] at hp; cases hp
+    | cExpire => exact absurd rfl hne
     | cClose => obtain ⟨hp, _⟩ := step_cClose hs; rw [hcp] at hp; cases hp
     | cCloseStep =>
       rcases step_cCloseStep hs with ⟨_, hp, _⟩ | ⟨_, hp, _⟩ | ⟨_, hp, _, _⟩ <;> (rw [hcp] at hp; cases hp)
 
+theorem internal_ne_cExpire {s : St V} {l : Label V} (h : l ∈ internalLabels s) : l ≠ .cExpire := by
+  intro hh
+  subst hh
+  simp [internalLabels] at h
+
 /-- Hence some run of steps that need no further input delivers the normal end to the waiting `Next`. -/
-theorem end_delivered {k : Nat} : ∀ (n : Nat) (s : St V), InvA k s → InvC k s → InvL k s → AllEnded s →
+theorem end_delivered {k : Nat} (ho : ctxOrigin = .plainCancel) :
+    ∀ (n : Nat) (s : St V), InvA k s → InvC k s → InvL k s → AllEnded s →
     s.cpc = .inNext true → nu2 s ≤ n →
     ∃ ls s', run s ls = some s' ∧ InternalRun s ls ∧ s'.results = s.results ++ [.endd] := by
   intro n
   induction n with
   | zero =>
     intro s ha hc hl hall hcp hn
-    obtain ⟨⟨l, hli, s1, hs1⟩, hdec⟩ := end_progress ha hc hl hall hcp
-    obtain ⟨_, hd⟩ := hdec l s1 hs1
+    obtain ⟨⟨l, hli, s1, hs1⟩, hdec⟩ := end_progress ho ha hc hl hall hcp
+    obtain ⟨_, hd⟩ := hdec l s1 (internal_ne_cExpire hli) hs1
     rcases hd with ⟨_, _, hlt⟩ | hd
     · omega
     · exact ⟨[l], s1, by simp [run, hs1], ⟨hli, fun _ _ => trivial⟩, hd⟩
   | succ n ih =>
     intro s ha hc hl hall hcp hn
-    obtain ⟨⟨l, hli, s1, hs1⟩, hdec⟩ := end_progress ha hc hl hall hcp
-    obtain ⟨hall1, hd⟩ := hdec l s1 hs1
+    obtain ⟨⟨l, hli, s1, hs1⟩, hdec⟩ := end_progress ho ha hc hl hall hcp
+    obtain ⟨hall1, hd⟩ := hdec l s1 (internal_ne_cExpire hli) hs1
     rcases hd with ⟨hcp1, hres1, hlt⟩ | hd
     · obtain ⟨ls, s', hrun, hint, hr⟩ := ih s1 (invA_step ha hs1) (invC_step ha hc hs1) (invL_step ha hc hl hs1)
         hall1 hcp1 (by omega)
